@@ -48,13 +48,15 @@ CLAIMS = [
         'level': 'proof',
         'technique': 'contract-based deductive verification: real assert_constraints bodies run on symbolic weights '
                      'and symbolic eps, recorded tf.Assert conditions proved equivalent to the index-by-index spec (z3/cvc5)',
-        'text': 'For lattice, PWL (library level), linear and categorical assert_constraints: (1) the call returning '
+        'text': 'For the lattice, PWL, linear, categorical and Kronecker-factored assert_constraints library functions, and for '
+                'the layer methods Lattice / PWLCalibration / CategoricalCalibration / KroneckerFactoredLattice / RTL.'
+                'assert_constraints (hyperparameter forwarding, on the layer built by the real build()): (1) the call returning '
                 'implies every covered constraint has slack >= -2*eps, (2) every covered constraint holding implies the '
-                'call returns - for ALL weight tensors and all eps > 0, per enumerated configuration. Two genuine defects '
+                'call returns - for ALL weight tensors and all eps > 0, per enumerated configuration. Three genuine defects '
                 'found by these obligations were repaired by fix: commits.',
         'note': 'Trusted: operator contracts incl. tf.Assert (scalar-boolean precondition) cross-checked on accept/raise '
                 'outcome against TensorFlow each run, z3/cvc5, reals for floats. Bounded configuration enumeration. '
-                'KFL / layer-level PWL / RTL assertions are not yet under contract.',
+                'Layer-level cases are a dozen enumerated layer configurations.',
         'design_ref': 'DESIGN.md section 4 C12',
     },
     {
